@@ -14,6 +14,7 @@ from ..ref import ed25519 as E
 from ..ref import isa, sigmsg
 
 ID = 'C17'
+BUILDER_DEFAULTS = True     # tools.* goes through tsverif/omit.py
 RULE = ('tuples (seed, message 0..512 bytes, tweak): tweaks = random 32-byte '
         'strings clamped and unclamped, top bit set, edge scalars 1, 2, L-1, '
         'L+1, 2^252, 2^255-1; per tuple: CHECK_ADAPTER_SIG on the PUBLIC '
